@@ -324,7 +324,7 @@ func driver(args lib.Args, focus string) {
 	}
 	out := lib.NewOut(args.Out)
 	out.Rule = "a program counts as non-trivial when it evaluated to a value or an error in every run (no budget/timeout); distinct = distinct program texts"
-	var diffs []Diff
+	diffs := []Diff{}
 	hangs := []string{}
 	for _, p := range progs {
 		rs := byProg[p.ID]
